@@ -45,6 +45,18 @@ class World:
                                                     # `order` holds -(k+1) where clone k is taken
 
 
+
+def _delegates(listeners):
+    """ids of the objects the listeners delegate to: instance attributes that are bound methods of another object
+    (listener kind `shared`) — a copy must call its *own* copy of that object"""
+    out = set()
+    for x in listeners:
+        for v in getattr(x, "__dict__", {}).values():
+            me = getattr(v, "__self__", None)
+            if me is not None and not isinstance(me, type):
+                out.add(id(me))
+    return out
+
 def world_to_json(w: World) -> str:
     return json.dumps(dataclasses.asdict(w), sort_keys=True)
 
@@ -179,7 +191,8 @@ def run_world(w: World, only=None):
             install_hook(mi)
         if w.clones and s.rt.owner_ids is None and getattr(s.rt, "sm", None) is not None and i > 0:
             s.rt.owner_ids = {id(s.rt.sm), id(s.rt.model)} | {id(x) for x in s.listeners.values()} | {
-                id(x.__dict__["_inner"]) for x in s.listeners.values() if "_inner" in getattr(x, "__dict__", {})}
+                id(x.__dict__["_inner"]) for x in s.listeners.values() if "_inner" in getattr(x, "__dict__", {})} | \
+                _delegates(s.listeners.values())
         s.foreign_from = None
         if nested and active:
             host = sessions[active[-1]]
@@ -258,7 +271,7 @@ def run_world(w: World, only=None):
             ls = getattr(clone, "_listeners", None)
             if isinstance(ls, (dict, list)):
                 rt.owner_ids = {id(clone), id(clone.model)} | {id(x) for x in ls} | {
-                    id(x.__dict__["_inner"]) for x in ls if "_inner" in getattr(x, "__dict__", {})}
+                    id(x.__dict__["_inner"]) for x in ls if "_inner" in getattr(x, "__dict__", {})} | _delegates(ls)
             shared = []
             if clone is sm:
                 shared.append("machine")
